@@ -11,6 +11,7 @@ import Gonuts.Model.WalletBooks
   `(books.snap w)`                                 snapshot of wallet w
   `(books.mint m)`                                 mint-side totals `(outstanding issued spent pendingValue reuse)`
   `(books.truth seed)`                             `(unspent pending)` value of the seed's signed outputs at all mints
+  `(books.check)`                                  the property predicates of Model.WalletBooks evaluated on the current world
 
   OP:  (mintreq w m amt) (settle m q) (minttokens w q) (send w m amt fees CH) (sendlocked w m amt owner sigall fees CH)
        (receive w tok swaptrusted strip SCRIPT) (meltquote w m amt) (melt w q SCRIPT CH) (checkmelt w q SCRIPT)
@@ -152,6 +153,10 @@ def handleSt (st : BSt) (cmd : String) (args : List Sexp) : Option (BSt × Sexp)
   | "books.snap", [wi] => do some (st, snapSx (st.w.wallet (← wi.asNat?)))
   | "books.mint", [mi] => do some (st, mintSx (st.w.mint (← mi.asNat?)))
   | "books.truth", [seed] => do some (st, truthSx st.w (← seed.asNat?))
+  | "books.check", [] =>
+    some (st, l [l [a "W_balance", Sexp.ofBool (wBalance st.w)], l [a "W_distinct", Sexp.ofBool (wDistinct st.w)],
+      l [a "W_conserve", Sexp.ofBool (wConserve st.w)], l [a "W_pending", Sexp.ofBool (wPending st.w)],
+      l [a "counter_discipline", Sexp.ofBool (cDiscipline st.w)], l [a "counter_discipline_active", Sexp.ofBool (cDisciplineActive st.w)]])
   | "books.tokens", [] =>
     some (st, l (st.w.tokens.map (fun t => l [Sexp.ofNat t.id, Sexp.ofNat t.mint, l (t.proofs.map (fun p => l [sidSx p.secret, ofU64 p.amount, Sexp.ofNat p.ks]))])))
   | _, _ => none
